@@ -5,10 +5,12 @@ from props.engine_family import FAM, DE
 
 NODE_STUBS = [r'AST_Node_Impl<.*>::eval\(', r'chaiscript::AST_Node::get_bool_condition', DE + r'(new_scope|pop_scope)\(', r'chaiscript::const_var', r'chaiscript::void_var']
 NODE_CUTS = [r'eval_error::', r'chaiscript::detail::Dispatch_State::\w+\(', r'Boxed_Value::~Boxed_Value', r'chaiscript::Boxed_Value::Object_Data::get\(\)']
-KINDS = {1: ('Block', 'Block_AST_Node'), 6: ('Scopeless_Block', 'Scopeless_Block_AST_Node'), 2: ('If', 'If_AST_Node'), 3: ('While', 'While_AST_Node'), 4: ('Logical_And', 'Logical_And_AST_Node'), 5: ('Logical_Or', 'Logical_Or_AST_Node')}
+KINDS = {7: ('For', 'For_AST_Node'), 8: ('Switch', 'Switch_AST_Node'), 9: ('Case', 'Case_AST_Node'), 10: ('Default', 'Default_AST_Node'), 1: ('Block', 'Block_AST_Node'), 6: ('Scopeless_Block', 'Scopeless_Block_AST_Node'), 2: ('If', 'If_AST_Node'), 3: ('While', 'While_AST_Node'), 4: ('Logical_And', 'Logical_And_AST_Node'), 5: ('Logical_Or', 'Logical_Or_AST_Node')}
 WIT = {1: ('witness: statement throws', 'witness: block completes'), 6: ('witness: statement throws', 'witness: block completes'),
        2: ('witness: condition throws', 'witness: condition not bool', 'witness: branch selected'), 3: ('witness: loop left by exception', 'witness: loop ends', 'witness: break', 'witness: second iteration'),
-       4: ('witness: lhs fails', 'witness: short circuit', 'witness: rhs evaluated'), 5: ('witness: lhs fails', 'witness: short circuit', 'witness: rhs evaluated')}
+       4: ('witness: lhs fails', 'witness: short circuit', 'witness: rhs evaluated'), 5: ('witness: lhs fails', 'witness: short circuit', 'witness: rhs evaluated'),
+       7: ('witness: loop left by exception', 'witness: loop ends', 'witness: break', 'witness: second iteration', 'witness: continue runs the step'),
+       9: ('witness: body completes', 'witness: body throws'), 10: ('witness: body completes', 'witness: body throws')}
 
 def node_harness(kind):
     nm, cls = KINDS[kind]
@@ -20,9 +22,19 @@ def node_harness(kind):
     if kind == 3:
         br = core.find_symbols(FAM, r'^typeinfo for chaiscript::eval::detail::Break_Loop'); 
         d['TI_BREAK'] = '((char*)&g__ZTIN10chaiscript4eval6detail10Break_LoopE)'; d['TI_CONTINUE'] = '((char*)&g__ZTIN10chaiscript4eval6detail13Continue_LoopE)'
-    if kind in (1, 6): shapes = [dict(d, NCH=n, _tag='children=%d' % n, _witness=WIT[kind]) for n in (1, 2, 3)]
+    stubs = list(NODE_STUBS); opts = ['--unwind', '7', '--unwindset', 'log_count.0:26,main.0:8,main.1:9']
+    if kind in (7, 8):
+        d['TI_BREAK'] = '((char*)&g__ZTIN10chaiscript4eval6detail10Break_LoopE)'
+        if kind == 7: d['TI_CONTINUE'] = '((char*)&g__ZTIN10chaiscript4eval6detail13Continue_LoopE)'
+    if kind == 8:
+        stubs += [r'chaiscript::boxed_cast<', DE + r'call_function\(']
+        d['CALL_FUNCTION'] = core.csym(FAM, DE + r'call_function\(std::basic_string_view'); d['BOXED_CAST_BOOL'] = core.csym(FAM, r'chaiscript::boxed_cast<bool>\('); d['NNODES'] = 8
+        opts = ['--unwind', '7', '--unwindset', 'log_count.0:26,main.0:10,main.1:9,main.2:10,main.3:10']
+    if kind == 8:
+        shapes = [dict(d, NCASE=n, _tag='cases=%d' % n, _witness=('witness: switch left by exception', 'witness: break', 'witness: matched', 'witness: nothing matched') + (('witness: fall through into default',) if n >= 2 else ())) for n in (1, 2, 3)]
+    elif kind in (1, 6): shapes = [dict(d, NCH=n, _tag='children=%d' % n, _witness=WIT[kind]) for n in (1, 2, 3)]
     else: shapes = [dict(d, _tag='all', _witness=WIT[kind])]
-    h = Harness('N.' + nm, FAM, [rx], 'c09_node.c', stubs=NODE_STUBS, cuts=NODE_CUTS, shapes=shapes, opts=['--unwind', '7', '--unwindset', 'log_count.0:26,main.0:8,main.1:9'], timeout=600, mem_gb=8,
+    h = Harness('N.' + nm, FAM, [rx], 'c09_node.c', stubs=stubs, cuts=NODE_CUTS, shapes=shapes, opts=opts, timeout=600, mem_gb=8,
                    string_model=True, inputs=['behav', 'cond_vals', 'cond_throw_at'], note='children abstract (return / throw 7-9 kinds); conditions from an oracle; loops bounded to 3 iterations')
     h.need_globals = ['_ZTIN10chaiscript9exception10eval_errorE', '_ZTIN10chaiscript11Boxed_ValueE']
     return h
@@ -36,4 +48,4 @@ def harnesses(tier):
 
 ASSUMPTIONS = ['children and get_bool_condition are abstract; new_scope/pop_scope are counters (their real code on a real Stack_Holder: harness S0, to be added)',
                'the induction over the tree (each node restores the depth if its children do) is an argument, not something the solver sees']
-OUTSIDE = ['nodes not listed (For, Ranged_For, Switch, Fun_Call, Lambda, Def, Dot_Access ...): to be added', 'Thread_Storage lookup of the holder (C14)']
+OUTSIDE = ['nodes not listed (Ranged_For, Fun_Call, Lambda, Def, Dot_Access, Method ...)', 'Thread_Storage lookup of the holder (C14)']
